@@ -163,7 +163,7 @@ def gen(seed, tier):
             add('RTAIS %d %d %d %s' % (r.choice([0, 5, 150]), r.choice([max(0, n), 20, 7]), size, hx(s)))
             add('RTSTR %d %d %d %d %s' % (r.choice([0, 5, 100]), r.choice([max(0, n), 32, size]), 255, size, hx(s)))
     # --- random further round trips
-    for _ in range(400 if quick else 12000):
+    for _ in range(3000 if quick else 30000):
         rt_var(mkstr(r, r.choice(KINDS), r.choice([r.randint(0, 30), r.randint(0, 120), r.randint(0, 300)])))
     # --- arbitrary payloads: GetVarStr with every length byte and type, GetStr sized / unsized
     def payload(dl):
@@ -189,7 +189,7 @@ def gen(seed, tier):
                 size = r.choice([0, 1, 2, 3, 4, 80, r.randint(0, 80), r.randint(0, 80)])
                 nul = r.choice(['-', '-', '255', '64', '0', '65', str(r.randrange(256))])
                 add('GETVAR %d %s %d %d %s' % (size, nul, idx, dl, hx(d)))
-    for _ in range(600 if quick else 8000):
+    for _ in range(1500 if quick else 15000):
         dl = r.choice([0, 1, 223, r.randint(0, 223), r.randint(0, 223)])
         ln = r.choice([0, 1, 2, 7, 20, 32, 223, 255, r.randint(0, 255), r.randint(0, 40)])
         idx = r.choice([0, 0, max(0, dl - ln), max(0, dl - ln + 1), max(0, dl - ln - 1), dl, r.randint(0, 230)])
